@@ -27,6 +27,7 @@ func buildProperties() []Property {
 				{"R-ANON-VAR", 2, ruleAnonVar},
 				{"R-MAP-COW", 4, ruleMapCOW},
 				{"R-ESCAPE-TABLES", 12, ruleEscapeTables},
+				{"R-ESCAPE-VALIDATED", 1, ruleEscapeValidated},
 				{"R-FLOAT-TEXT", 2, ruleFloatText},
 				{"R-TEXT-RUNE", 8, ruleTextRune},
 				{"R-OPS-SOURCE", 4, ruleOpsSource},
